@@ -483,7 +483,7 @@ def summarize(pid, tier, seed, results, wall):
                 lines.append("VIOLATION property=%s replay=%s" % (pid, path))
                 violations += 1
                 bump(1)
-            elif f["solver"] == "sat" and f["kind"] in HARD_KINDS and f.get("was_discharged_in_lock"):
+            elif f["solver"] == "sat" and f.get("was_discharged_in_lock"):
                 path = write_replay(pid, f["obligation"], dict(f, property=pid, function=fq,
                                                                note="obligation discharged on the unchanged tree now refuted by the solver; no native witness found"))
                 lines.append("VIOLATION property=%s replay=%s no-failing-input-found" % (pid, path))
@@ -631,6 +631,8 @@ def write_lock(pids):
 
 
 def main(argv):
+    import warnings
+    warnings.simplefilter("ignore")
     if not argv:
         print(__doc__)
         return 3
